@@ -186,3 +186,143 @@ Theorem C03_beyond_trim_unaffected_calls : forall (f : Z -> list Z -> Z) s c k o
   log (fst (erun (clean_with f s) (map EOp ops))) = log (fst (erun s (map EOp ops))).
 Proof. exact Proofs.BufferMore.beyond_trim_unaffected_calls. Qed.
 Print Assumptions C03_beyond_trim_unaffected_calls.
+
+(* ================================================================================================================
+   Buffer.cleanupLogic and Buffer.consumerOffsets AS WRITTEN IN THE CURRENT SOURCE are the model's [clean_with] and
+   [rel_offsets] of the theorems above.  coq/Gen/ImplBuffer.v is printed from buffer.go (and the struct declaration of
+   Buffer) by harness/cmd/gotr -set buffer on every run; [GoFrag3.run3 oe me perm fuel] is the interpreter of the fragment
+   it is written in (Model/GoFrag3.v): [oe] the oracles - here b.cleaner.Cleaner, ANY function f ([cleaner_oenv f]) -, [me]
+   the read-only methods callable from an expression - here the TRANSLATED consumerOffsets ([buffer_menv], through
+   [pure_call], which refuses a method that writes or has an effect) -, [perm] the order in which `range b.consumers`
+   visits the map (Go leaves it unspecified: the theorems hold for EVERY perm that permutes its argument), [fuel] the
+   iterations allowed to a loop (the theorems hold for every fuel above the buffer's length; a run that stays within its
+   fuel does not depend on it, C03_source_loop_bound_is_only_a_bound).  Vocabulary (Model/BufferSrc.v): [mkstore], [abs] as
+   in Properties/C01.v; [offsets_spec order off] the offsets of the map entries in iteration order, minus off;
+   [cleanup_spec] the closed form of cleanupLogic; [cleanup_moved f s]: did clean_with f s move the base.
+   ================================================================================================================ *)
+From Coq Require Import String.
+From BB.Model Require Import GoFrag3 BufferSrc.
+From BB.Gen Require ImplBuffer.
+From BB.Proofs Require GoFrag3 BufferSrc BufferGen.
+Import GoFrag.
+Open Scope Z_scope.
+
+(* On EVERY source-level state: consumerOffsets changes nothing, has no effect and returns consumers[c] - b.offset for the
+   entries of the map in the order in which it is iterated. *)
+Theorem C03_consumer_offsets_source_is_spec : forall oe me perm fuel closed consumers offset buffer,
+  run3 oe me perm fuel BB.Gen.ImplBuffer.consumerOffsets_def (mkstore closed consumers offset buffer) []
+  = Returned3 (mkstore closed consumers offset buffer) [W (VList (offsets_spec (perm consumers) offset))] [].
+Proof. exact Proofs.BufferGen.consumerOffsets_src_eq_spec. Qed.
+Print Assumptions C03_consumer_offsets_source_is_spec.
+
+(* On the image of EVERY model state and for every iteration order: what consumerOffsets returns is a permutation of the
+   model's [rel_offsets s] (and exactly that list when the map is iterated in the order of the consumer ids). *)
+Theorem C03_consumer_offsets_source_is_model : forall oe me perm fuel s,
+  (forall l, Permutation.Permutation (perm l) l) ->
+  exists offsets,
+    run3 oe me perm fuel BB.Gen.ImplBuffer.consumerOffsets_def (abs s) [] = Returned3 (abs s) [W (VList offsets)] [] /\
+    Permutation.Permutation offsets (rel_offsets s).
+Proof. exact Proofs.BufferGen.consumerOffsets_src_eq_model. Qed.
+Print Assumptions C03_consumer_offsets_source_is_model.
+
+Theorem C03_consumer_offsets_source_is_model_in_id_order : forall oe me fuel s,
+  run3 oe me (fun l => l) fuel BB.Gen.ImplBuffer.consumerOffsets_def (abs s) []
+  = Returned3 (abs s) [W (VList (rel_offsets s))] [].
+Proof. exact Proofs.BufferGen.consumerOffsets_src_eq_model_id. Qed.
+Print Assumptions C03_consumer_offsets_source_is_model_in_id_order.
+
+(* On EVERY source-level state, for every cleaner f, every iteration order and every loop bound above the buffer's length:
+   cleanupLogic calls f with (len(buffer), the relative offsets in iteration order), clamps the answer to [0, len]
+   ([clamp_shift] of C03_clamp_spec), returns false without any change or effect if that is 0, and otherwise drops that many
+   values from the front of b.buffer, adds as much to b.offset, broadcasts once and returns true.  (The loop that nils the
+   dropped slots runs on the part of the slice that is then cut off; a bound one too large is an index panic when shift =
+   len and a lost value otherwise.) *)
+Theorem C03_cleanup_source_is_spec : forall (f : Z -> list Z -> Z) perm fuel closed consumers offset buffer,
+  (List.length buffer < fuel)%nat ->
+  run3 (cleaner_oenv f) (Proofs.BufferGen.buffer_menv perm fuel) perm fuel BB.Gen.ImplBuffer.cleanupLogic_def
+       (mkstore closed consumers offset buffer) []
+  = cleanup_spec f (perm consumers) closed consumers offset buffer.
+Proof. exact Proofs.BufferGen.cleanup_src_eq_spec. Qed.
+Print Assumptions C03_cleanup_source_is_spec.
+
+(* [buffer_menv]: the one method cleanupLogic calls is the translated consumerOffsets itself *)
+Theorem C03_cleanup_source_calls_translated_offsets : forall perm fuel,
+  Proofs.BufferGen.buffer_menv perm fuel
+  = [("consumerOffsets"%string, pure_call [] [] perm fuel BB.Gen.ImplBuffer.consumerOffsets_def)].
+Proof. exact (fun perm fuel => eq_refl). Qed.
+Print Assumptions C03_cleanup_source_calls_translated_offsets.
+
+(* On the image of EVERY model state, for every cleaner f that does not depend on the ORDER of its offsets
+   ([perm_invariant]), every iteration order of the map and every loop bound above Size: the state after cleanupLogic is
+   the image of the model's [clean_with f s], its result says whether the base moved, and it broadcasts exactly then. *)
+Theorem C03_cleanup_source_is_model : forall (f : Z -> list Z -> Z) perm fuel s,
+  Proofs.BufferSrc.perm_invariant f -> (forall l, Permutation.Permutation (perm l) l) -> (size s < fuel)%nat ->
+  run3 (cleaner_oenv f) (Proofs.BufferGen.buffer_menv perm fuel) perm fuel BB.Gen.ImplBuffer.cleanupLogic_def (abs s) []
+  = Returned3 (abs (clean_with f s)) [W (VBool (cleanup_moved f s))] (cleanup_log (cleanup_moved f s)).
+Proof. exact Proofs.BufferGen.cleanup_src_eq_model. Qed.
+Print Assumptions C03_cleanup_source_is_model.
+
+(* [perm_invariant], and: every cleaner of the model - DefaultCleaner, FixedBufferCleaner max target, the two custom ones
+   the harness uses - is independent of the order of its offsets, so the theorem above applies to the model's [clean] *)
+Theorem C03_perm_invariant_def : forall f,
+  Proofs.BufferSrc.perm_invariant f <-> (forall size l l', Permutation.Permutation l l' -> f size l = f size l').
+Proof. exact (fun f => conj (fun H => H) (fun H => H)). Qed.
+Print Assumptions C03_perm_invariant_def.
+
+Theorem C03_model_cleaners_ignore_order : forall k, Proofs.BufferSrc.perm_invariant (cleaner_of k).
+Proof. exact Proofs.BufferSrc.cleaner_of_perm. Qed.
+Print Assumptions C03_model_cleaners_ignore_order.
+
+Theorem C03_cleanup_source_is_model_clean : forall k perm fuel s,
+  (forall l, Permutation.Permutation (perm l) l) -> (size s < fuel)%nat ->
+  run3 (cleaner_oenv (cleaner_of k)) (Proofs.BufferGen.buffer_menv perm fuel) perm fuel
+       BB.Gen.ImplBuffer.cleanupLogic_def (abs s) []
+  = Returned3 (abs (clean_with (cleaner_of k) s)) [W (VBool (cleanup_moved (cleaner_of k) s))]
+              (cleanup_log (cleanup_moved (cleaner_of k) s)).
+Proof. exact Proofs.BufferGen.cleanup_src_eq_model_cfg. Qed.
+Print Assumptions C03_cleanup_source_is_model_clean.
+
+(* The interpreter's loop bound is only a bound: a run that does not end in OutOfFuel is the run with any larger bound. *)
+Theorem C03_source_loop_bound_is_only_a_bound : forall oe me perm fa fb f st args, (fa <= fb)%nat ->
+  run3 oe me perm fa f st args <> OutOfFuel ->
+  run3 oe me perm fb f st args = run3 oe me perm fa f st args.
+Proof. exact Proofs.GoFrag3.run3_fuel_mono. Qed.
+Print Assumptions C03_source_loop_bound_is_only_a_bound.
+
+(* A method reached through [pure_call] (here consumerOffsets from cleanupLogic) returned one value, left the receiver's
+   state alone and had no effect. *)
+Theorem C03_source_pure_call_is_pure : forall oe me perm fuel f st args v,
+  pure_call oe me perm fuel f st args = Some v -> run3 oe me perm fuel f st args = Returned3 st [v] [].
+Proof. exact Proofs.GoFrag3.pure_call_sound. Qed.
+Print Assumptions C03_source_pure_call_is_pure.
+
+(* Not vacuous, by running the translated source on a state the model reaches (three values put, one consumer that has
+   committed two): a cleaner asking for more than there is (CAll: size + 5) is CLAMPED to everything; one asking for a
+   negative number (CNone) shifts nothing, returns false and does not broadcast; the default cleaner shifts up to the
+   consumer; a loop bound that is too small is reported as OutOfFuel, never as a result. *)
+Theorem C03_cleanup_source_examples :
+  let s := fst (erun (init CDefault) [EOp (OPut [10; 20; 30]); EOp ONew; EOp (OGet 0); EOp (OGet 0); EOp (OCommit 0)]) in
+  let run := fun k => run3 (cleaner_oenv (cleaner_of k)) (Proofs.BufferGen.buffer_menv (fun l => l) 4) (fun l => l) 4
+                        BB.Gen.ImplBuffer.cleanupLogic_def (abs s) [] in
+  run CAll = Returned3 (mkstore false [(0%nat, 2)] 3 []) [W (VBool true)] [log_broadcast] /\
+  run CNone = Returned3 (abs s) [W (VBool false)] [] /\
+  run CDefault = Returned3 (mkstore false [(0%nat, 2)] 2 [Some 30]) [W (VBool true)] [log_broadcast] /\
+  run3 (cleaner_oenv (cleaner_of CAll)) (Proofs.BufferGen.buffer_menv (fun l => l) 3) (fun l => l) 3
+       BB.Gen.ImplBuffer.cleanupLogic_def (abs s) [] = OutOfFuel /\
+  rel_offsets s = [2] /\ size s = 3%nat.
+Proof. exact Proofs.BufferGen.cleanup_src_examples. Qed.
+Print Assumptions C03_cleanup_source_examples.
+
+(* the iteration order matters to consumerOffsets' result and not to cleanupLogic's: two consumers at 2 and 1, the map
+   iterated backwards *)
+Theorem C03_iteration_order_examples :
+  let s := fst (erun (init CDefault) [EOp (OPut [10; 20; 30]); EOp ONew; EOp ONew; EOp (OGet 0); EOp (OGet 0); EOp (OCommit 0);
+                                      EOp (OGet 1); EOp (OCommit 1)]) in
+  run3 [] [] (@List.rev _) 0 BB.Gen.ImplBuffer.consumerOffsets_def (abs s) [] = Returned3 (abs s) [W (VList [1; 2])] [] /\
+  rel_offsets s = [2; 1] /\
+  run3 (cleaner_oenv default_cleaner) (Proofs.BufferGen.buffer_menv (@List.rev _) 9) (@List.rev _) 9 BB.Gen.ImplBuffer.cleanupLogic_def (abs s) []
+  = Returned3 (mkstore false [(0%nat, 2); (1%nat, 1)] 1 [Some 20; Some 30]) [W (VBool true)] [log_broadcast] /\
+  run3 (cleaner_oenv default_cleaner) (Proofs.BufferGen.buffer_menv (fun l => l) 9) (fun l => l) 9 BB.Gen.ImplBuffer.cleanupLogic_def (abs s) []
+  = Returned3 (mkstore false [(0%nat, 2); (1%nat, 1)] 1 [Some 20; Some 30]) [W (VBool true)] [log_broadcast].
+Proof. exact Proofs.BufferGen.order_examples. Qed.
+Print Assumptions C03_iteration_order_examples.
